@@ -175,6 +175,7 @@ def build_trees_dict(
 
     # Create a tree for each scope in scopes
     scopes = conj_vars_l + [free_vars] if free_vars else conj_vars_l
+    scopes = [[int(var) for var in scope] for scope in scopes]  # Scopes must consist of Python integers
     trees = []
     for scope in scopes:
         _, tree = maximum_spanning_tree(
